@@ -219,7 +219,7 @@ fn gen_lines(nl: usize) -> Vec<Vec<u8>> {
             4 => {
                 let k = [11usize, 13][i % 2];
                 l.extend_from_slice(KEYS[k].as_bytes());
-                l.extend_from_slice(b"= x  y/z ");
+                l.extend_from_slice(b"= x \ty/z\tw ");
             }
             5 => l.extend_from_slice(b"UNKNOWN_KEY=1"),
             6 => l.extend_from_slice(b"no equals here"),
